@@ -448,11 +448,22 @@ def parse_rvalue(s):
             k, v = f.split(': ', 1)
             fields.append((k.strip(), parse_operand(v)))
         return ('struct', m.group(1), fields)
-    # tuple struct / enum variant with payload  Name(op, ..)
-    m = re.match(r'^([A-Za-z_][^()]*)\((.*)\)$', s)
-    if m:
-        args = [p for p in split_top(m.group(2)) if p != '']
-        return ('ctor', m.group(1), [parse_operand(a) for a in args])
+    # tuple struct / enum variant with payload  Name(op, ..)   (the name may contain `()` inside generic arguments)
+    if s.endswith(')') and re.match(r'^[A-Za-z_<]', s) and not s.startswith(('copy ', 'move ', 'const ')):
+        depth = 0
+        k = len(s) - 1
+        while k >= 0:
+            if s[k] == ')':
+                depth += 1
+            elif s[k] == '(':
+                depth -= 1
+                if depth == 0:
+                    break
+            k -= 1
+        name = s[:k]
+        if k > 0 and re.match(r'^[A-Za-z_<][A-Za-z0-9_:<>, \[\];&\'()]*$', name) and not name.endswith(('<', ',', ' ')):
+            args = [p for p in split_top(s[k + 1:-1]) if p != '']
+            return ('ctor', name, [parse_operand(a) for a in args])
     # unit variant / unit struct
     if re.match(r'^[A-Za-z_<][A-Za-z0-9_:<>, \[\];&\'()]*$', s):
         return ('ctor', s, [])
